@@ -2,6 +2,7 @@
 # SPDX-License-Identifier: BSD-4-Clause
 from __future__ import annotations
 
+import pickle
 import sys
 import time
 from collections.abc import Callable, Iterable, Mapping
@@ -32,6 +33,17 @@ class Task(NamedTuple):
     reraise: bool
     args: Iterable[Any]
     kwargs: Mapping[str, Any]
+
+
+def transportable(e: BaseException) -> BaseException:
+    # a Result travels back from a worker process by pickle: an exception
+    # that cannot make the round trip (a constructor with its own signature)
+    # would break the pool and lose the results of the other payloads
+    try:
+        pickle.loads(pickle.dumps(e))
+    except Exception:
+        return Exception(f'{type(e).__name__}: {e}')
+    return e
 
 
 def taskproc(task: Task) -> Result:
@@ -65,7 +77,7 @@ def taskproc(task: Task) -> Result:
     except RuntimeError:
         raise
     except (Exception, RecursionError) as e:
-        result.exception = e
+        result.exception = transportable(e)
         if task.reraise or (
             (raises := task.payload.raises())
             and not any(isinstance(e, r) for r in raises)
